@@ -9,6 +9,7 @@ package main
 
 import (
 	"go/ast"
+	"go/token"
 	"strings"
 )
 
@@ -197,5 +198,84 @@ func init() {
 		s.Params = []irTerm{{"id", "Nat"}, {"hasErr", "Bool"}, {"d", "Int"}}
 		return irEmit(r, w, file, "CircuitBreaker", "RecordResult", s,
 			"`cb.window.Push` is the model's `Win.push` (count-based part: `countPushIR`).")
+	}})
+}
+
+// --- Extension resil: pkg/resilience/circuitbreaker.go — circuitBreakerWrapper.Wrap (the returned closure,
+// with its deferred `if panicked { RecordResult(…, true, …) }` inlined by irSpec.DeferInline) and
+// CircuitBreakerPolicy.CreateWrapper → module FactsC08IRw.
+
+func c08WrapSpec() *irSpec {
+	return &irSpec{
+		Name:        "wrapIR",
+		Binders:     "(permitted : Bool) (o : Outcome)",
+		BNames:      []string{"permitted", "o"},
+		RetTy:       "List Ev × WrapRet",
+		Recv:        irTerm{"()", "W"},
+		Params:      []irTerm{{"()", "Handler"}},
+		Closure:     &irClosure{Params: []irTerm{{"()", "Ctx"}}},
+		DeferInline: true,
+		State:       []irLet{{"events", "Events", "([] : List Ev)"}},
+		LeanTy: map[string]string{"Events": "List Ev", "W": "Unit", "Handler": "Unit", "Ctx": "Unit", "Err": "Outcome",
+			"Time": "Unit", "Dur": "Unit", "SID": "Unit"},
+		GoTy:   map[string]string{"error": "Err"},
+		Zero:   map[string]string{"Err": "Outcome.ok"},
+		Consts: map[string]irTerm{"ErrShortCircuited": {"WrapRet.shortCircuited", "WrapRet"}},
+		Funcs: map[string]irCall{
+			"time.Now":   {Fmt: "()", Ty: "Time", NArgs: 0},
+			"time.Since": {Fmt: "()", Ty: "Dur", NArgs: 1},
+		},
+		EffMethods: map[string]irEffCall{
+			// w.AcquirePermission(): the breaker's answer is the environment's `permitted`
+			"W.AcquirePermission": {NArgs: 0, Fmt: "(permitted, ())", Ty: "Bool × SID",
+				Pre: []irLet{{"events", "Events", "(events ++ [Ev.acquire])"}}},
+		},
+		EffFuncs: map[string]irEffCall{
+			// handler(ctx): returns nil / an error, or panics (then the statements after it do not run)
+			"(Handler)": {NArgs: 1, Fmt: "o", Ty: "Err", Guard: "(o != Outcome.panic)",
+				Pre: []irLet{{"events", "Events", "(events ++ [Ev.handler])"}}},
+		},
+		StmtMethods: map[string]irStmtCall{
+			"W.RecordResult": {NArgs: 3, Lets: []irLet{{"events", "Events", "(events ++ [Ev.record %[3]s])"}}},
+		},
+		// a panic propagates to the caller after the deferred closure ran
+		Panic: "(events, WrapRet.panics)",
+		Hook: func(t *irT, e ast.Expr, env *irEnv) (irTerm, bool, error) {
+			// err != nil / err == nil for the handler's outcome
+			if be, ok := e.(*ast.BinaryExpr); ok && (be.Op == token.NEQ || be.Op == token.EQL) {
+				if id, ok := be.Y.(*ast.Ident); ok && id.Name == "nil" {
+					if v, err := t.tryExpr(be.X, env); err == nil && v.Ty == "Err" {
+						if be.Op == token.NEQ {
+							return irTerm{"(" + v.S + " != Outcome.ok)", "Bool"}, true, nil
+						}
+						return irTerm{"(" + v.S + " == Outcome.ok)", "Bool"}, true, nil
+					}
+				}
+			}
+			return irTerm{}, false, nil
+		},
+		Ret: func(v []irTerm) (string, error) {
+			if len(v) != 1 {
+				return "", errUnsupportedReturn
+			}
+			switch v[0].Ty {
+			case "WrapRet":
+				return "(events, " + v[0].S + ")", nil
+			case "Err":
+				return "(events, if " + v[0].S + " == Outcome.ok then WrapRet.nil else WrapRet.handlerErr)", nil
+			}
+			return "", errUnsupportedReturn
+		},
+	}
+}
+
+func init() {
+	register(Extractor{Module: "FactsC08IRw", Imports: []string{"EgVerif.Model.CircuitBreaker"}, Run: func(r *Repo, w *Lean) error {
+		w.Line("set_option linter.unusedVariables false")
+		w.Line("open EgVerif.CircuitBreaker")
+		w.Line("")
+		return irEmit(r, w, "pkg/resilience/circuitbreaker.go", "circuitBreakerWrapper", "Wrap", c08WrapSpec(),
+			"The body of the returned closure; `permitted` = the answer of `AcquirePermission`, `o` = what the wrapped handler does\n"+
+				"(a panic makes the call partial: the deferred closure, inlined from the source, runs on that path and before every return).")
 	}})
 }
